@@ -1,7 +1,8 @@
 /-
   Proofs/MixtureDMReset.lean — `MeasurementCNOTandReset` on a mixture whose branches agree, Hilbert-space level, all n.
 
-  After the (uniform) measurement of qubit `q1` with outcome `o` every branch state is fixed by `Π_o`; a Pauli on another qubit
+  After the measurement of qubit `q1` with one outcome `o` for all branches (the joint measurement; before the repair of F2: a
+  per-branch measurement on which the branches agreed) every branch state is fixed by `Π_o`; a Pauli on another qubit
   keeps that; `reset_z(q1, 0)` then measures again — deterministically, with the same outcome, *because* the state is fixed by
   `Π_o` (`det_of_fixed`: a Hilbert-space argument, no tableau bookkeeping) — and flips the qubit iff `o = 1`.  The
   density-matrix backend applies the Kraus pair `|0⟩⟨0|_q , |0⟩⟨1|_q` (`get_reset_qubit_kraus`), which on a state fixed by
